@@ -129,3 +129,15 @@ Proof.
   intros j. rewrite !(get_map_snd f (fun k v => f (k, v))) by (intros [? ?]; reflexivity).
   rewrite C. reflexivity.
 Qed.
+
+(* a checker for closed examples *)
+Fixpoint nodupb (l : list N) : bool :=
+  match l with [] => true | x :: r => negb (existsb (N.eqb x) r) && nodupb r end.
+
+Lemma nodupb_sound l : nodupb l = true -> NoDup l.
+Proof.
+  induction l as [|x r IH]; cbn [nodupb]; intros H; constructor; apply andb_true_iff in H; destruct H as [H1 H2].
+  - intros HI. apply negb_true_iff in H1. assert (existsb (N.eqb x) r = true); [|congruence].
+    apply existsb_exists. exists x. split; [exact HI|apply N.eqb_refl].
+  - apply IH, H2.
+Qed.
